@@ -159,46 +159,54 @@ def env():
             pass
     _env['Rec'] = Rec
 
-    class TestCb(irclib.IrcCallback):
-        def __init__(self, i, spec):
-            self.i, self.spec = i, spec
+    def make_testcb(base):
+        """the scripted faulty callback, derived from [base]: irclib.IrcCallback (kind 'cb') or callbacks.Plugin (kind
+        'plugin', what every real plugin derives from); the metaclass of [base] decides which of its methods get the firewall"""
+        class TestCb(base):
+            def __init__(self, i, spec):
+                self.i, self.spec = i, spec
 
-        def name(self):
-            return 'T%d' % self.i
+            def name(self):
+                return 'T%d' % self.i
 
-        def _do(self, irc, row):
-            if row:
-                if row[1]:
-                    H.stage = 'cb'
-                    irc.driver.reconnect()
-                if row[2]:
-                    raise mk_exc(row[2])
+            def _do(self, irc, row):
+                if row:
+                    if row[1]:
+                        H.stage = 'cb'
+                        irc.driver.reconnect()
+                    if row[2]:
+                        raise mk_exc(row[2])
 
-        def inFilter(self, irc, msg):
-            n = H.cur
-            if self.i == 0:
-                H.seen.add(n)       # callback 0 is passive: it sees a message iff the handler stage returned normally
-            H.log.append([1, n, self.i])
-            row = self.spec['in'].get(n)
-            self._do(irc, row)
-            if row and len(row) > 3 and not row[3]:
-                return None
-            return msg
+            def inFilter(self, irc, msg):
+                n = H.cur
+                if self.i == 0:
+                    H.seen.add(n)       # callback 0 is passive: it sees a message iff the handler stage returned normally
+                H.log.append([1, n, self.i])
+                row = self.spec['in'].get(n)
+                self._do(irc, row)
+                if row and len(row) > 3 and not row[3]:
+                    return None
+                return msg
 
-        def __call__(self, irc, msg):
-            n = H.cur
-            H.log.append([2, n, self.i])
-            self._do(irc, self.spec['call'].get(n))
+            def __call__(self, irc, msg):
+                n = H.cur
+                H.log.append([2, n, self.i])
+                self._do(irc, self.spec['call'].get(n))
 
-        def outFilter(self, irc, msg):
-            if msg.command == 'PONG':
-                a = msg.args[0]
-                H.log.append([3, self.i] + [ord(c) for c in a])
-                trig, code = self.spec['out']
-                if code and (trig == 0 or a[:1] == chr(trig)):
-                    raise mk_exc(code)
-            return msg
-    _env['TestCb'] = TestCb
+            def outFilter(self, irc, msg):
+                if msg.command == 'PONG':
+                    a = msg.args[0]
+                    H.log.append([3, self.i] + [ord(c) for c in a])
+                    trig, code = self.spec['out']
+                    if code and (trig == 0 or a[:1] == chr(trig)):
+                        raise mk_exc(code)
+                return msg
+        return TestCb
+    import supybot.callbacks as callbacks
+    _env['TestCb'] = make_testcb(irclib.IrcCallback)
+    _env['TestPlugin'] = make_testcb(callbacks.Plugin)
+    _env['TestRegexp'] = make_testcb(callbacks.PluginRegexp)
+    _env['callbacks'] = callbacks
 
     class FaultyState(irclib.IrcState):
         def addMsg(self, irc, msg):
@@ -225,20 +233,20 @@ def env():
 XBOOM_CODES = (1, 2, 3, 4, 5, 6, 7, 8, 9, 12, 20, 21, 22, 23, 24)
 
 
-def cb_class(poison):
+def cb_class(poison, kind='cb'):
     """the test callback class; poison != 0: its objects have a property whose getter raises that exception, i.e. what
     Logger.exception's debug helper (utils.python.collect_extra_debug_data) meets when it inspects the `self` of a
     traceback frame of a faulty plugin (a @property over state that is not there yet)"""
     E = env()
+    base = {'plugin': E['TestPlugin'], 'regexp': E['TestRegexp']}.get(kind, E['TestCb'])
     if not poison:
-        return E['TestCb']
+        return base
     cache = E.setdefault('pcls', {})
-    if poison not in cache:
+    if (poison, kind) not in cache:
         def broken_property(self):
             raise mk_exc(poison)
-        base = E['TestCb']
-        cache[poison] = type(base)('PoisonedCb%d' % poison, (base,), {'broken_property': property(broken_property)})
-    return cache[poison]
+        cache[(poison, kind)] = type(base)('PoisonedCb%d' % poison, (base,), {'broken_property': property(broken_property)})
+    return cache[(poison, kind)]
 
 
 def decoder(inp):
@@ -257,7 +265,7 @@ def run_impl(inp):
     H.addmsg = {r[0]: r for r in inp.get('addmsg', [])}
     cbs = [E['TestCb'](0, {'in': {}, 'call': {}, 'out': [0, 0]})]
     for i, spec in enumerate(inp.get('cbs', [])):
-        cbs.append(cb_class(spec.get('poison', 0))(i + 1, {'in': {r[0]: r for r in spec['in']}, 'call': {r[0]: r for r in spec['call']},
+        cbs.append(cb_class(spec.get('poison', 0), spec.get('kind', 'cb'))(i + 1, {'in': {r[0]: r for r in spec['in']}, 'call': {r[0]: r for r in spec['call']},
                                    'out': spec['out']}))
     irc = E['TIrc']('test', callbacks=cbs)
     irc.state.__class__ = E['FaultyState']
@@ -405,7 +413,9 @@ def wire_chunks(inp):
 
 def wire_case(inp, dispatch_rows):
     dtab, vts = model_tables(inp)
-    cbs = [[[], [], [0, 0], 0]] + [[spec['in'], spec['call'], spec['out'], spec.get('poison', 0)] for spec in inp.get('cbs', [])]     # callback 0: passive
+    kc = {'cb': 0, 'plugin': 1, 'regexp': 2}
+    cbs = [[[], [], [0, 0], 0, 0]] + [[spec['in'], spec['call'], spec['out'], spec.get('poison', 0), kc[spec.get('kind', 'cb')]]
+                                      for spec in inp.get('cbs', [])]     # callback 0: passive, IrcCallback-derived
     return [0, [wire_chunks(inp), dtab, vts, dispatch_rows, inp.get('addmsg', []), cbs]]
 
 
@@ -539,6 +549,7 @@ def gen_script(rng, nlines, heavy):
                     r[2] = 12
             if spec['out'][1] >= 20:
                 spec['out'][1] = 12
+        spec['kind'] = rng.choice(['cb', 'plugin', 'plugin', 'regexp'])      # both kinds of faulty callbacks, always
         cbs.append(spec)
     addmsg = [[n, 0, rng.choice(codes)] for n in range(nlines) if heavy and rng.random() < 0.1]
     return cbs, addmsg
@@ -667,6 +678,13 @@ def mutate(rng, l):
 
 
 CORPUS = [
+    # witness of the repaired finding C07.F46: a plugin (class derived from callbacks.Plugin) whose outFilter raises must not
+    # make takeMsg drop every outgoing message
+    {'chunks': [['d', 'PING :one\r\n'], ['d', 'PING :after\r\n']], 'addmsg': [], 'final_ping': 'after',
+     'cbs': [{'in': [], 'call': [], 'out': [0, 12], 'kind': 'plugin'}]},
+    {'chunks': [['d', ':n!u@h PRIVMSG #c :x\r\nPING :one\r\n'], ['d', 'PING :after\r\n']], 'addmsg': [], 'final_ping': 'after',
+     'cbs': [{'in': [[0, 0, 12, 1], [1, 0, 2, 1]], 'call': [[0, 0, 3], [1, 0, 12]], 'out': [0, 1], 'kind': 'regexp'},
+             {'in': [[0, 0, 4, 1]], 'call': [[1, 0, 6]], 'out': [111, 2], 'kind': 'plugin'}]},
     # a faulty plugin whose object has a property that raises when inspected (KeyError / ValueError / RuntimeError): its
     # __call__, inFilter and outFilter raise; every swallowing handler runs Logger.exception -> collect_extra_debug_data on it
     {'chunks': [['d', ':n!u@h PRIVMSG #c :x\r\n'], ['d', 'PING :after\r\n']], 'addmsg': [], 'final_ping': 'after',
@@ -818,6 +836,13 @@ def run(ctx):
         obss.append(check_case(ctx, kind, inp))
     check_format_scanner(ctx, cases)
     check_int_scanner(ctx)
+    check_class_table(ctx)
+    kinds = {}
+    for _, inp in cases:
+        for spec in inp.get('cbs', []):
+            kinds[spec.get('kind', 'cb')] = kinds.get(spec.get('kind', 'cb'), 0) + 1
+    ctx.notes.append('faulty callbacks run, by base class: irclib.IrcCallback %d (+1 passive per case), callbacks.Plugin %d, '
+                     'callbacks.PluginRegexp %d' % (kinds.get('cb', 0), kinds.get('plugin', 0), kinds.get('regexp', 0)))
     outs = ctx.model([wire_case(inp, obs['_dispatch']) for (kind, inp), obs in zip(cases, obss)])
     for (kind, inp), obs, mo in zip(cases, obss, outs):
         if mo is None:
@@ -853,6 +878,49 @@ def check_format_scanner(ctx, cases):
             ctx.disagree(inp, o, want, 'argument-consuming directives of utils.str.format')
 
 
+def check_class_table(ctx):
+    """the regenerated class table (bases, C3 MRO) and the model's MetaFirewall merge against the real classes: the
+    MRO the model uses is the real __mro__, and for a class derived from each base the methods the model says are
+    firewalled are exactly those the real metaclass wrapped"""
+    E = env()
+    import supybot.irclib as irclib
+    callbacks = E['callbacks']
+    real = {'IrcCallback': (irclib.IrcCallback, E['TestCb']), 'Plugin': (callbacks.Plugin, E['TestPlugin']),
+            'PluginRegexp': (callbacks.PluginRegexp, E['TestRegexp'])}
+    names = sorted(real)
+    outs = ctx.model([[5, n] for n in names])
+    for n, o in zip(names, outs):
+        if o is None:
+            continue
+        inp = {'op': 'class-table', 'line': n}
+        ctx.case('class-table', inp)
+        mro = [c.__name__ for c in real[n][0].__mro__]
+        if wire.ls(o[0]) != mro:
+            ctx.disagree(inp, wire.ls(o[0]), mro, 'MRO of ' + n)
+        keys = set(wire.ls(o[1]))
+        for meth in ('inFilter', '__call__', 'outFilter'):
+            f = real[n][1].__dict__[meth]
+            wrapped = any(getattr(g, '__code__', None) is not None and g.__code__.co_name == 'm' for g in _unwrap_chain(f))
+            if wrapped != (meth in keys):
+                ctx.disagree(inp, meth in keys, wrapped, 'log.firewall around %s of a class derived from %s' % (meth, n))
+
+
+def _unwrap_chain(f):
+    """f and the functions it closes over (MetaSynchronized wraps the firewalled function again)"""
+    seen, todo = [], [f]
+    while todo:
+        g = todo.pop()
+        if g in seen or not hasattr(g, '__code__'):
+            continue
+        seen.append(g)
+        for c in (g.__closure__ or ()):
+            try:
+                todo.append(c.cell_contents)
+            except ValueError:
+                pass
+    return seen
+
+
 def check_int_scanner(ctx):
     """the model's int() (converter of CHANNELLEN) against the real one"""
     import itertools
@@ -875,7 +943,7 @@ def check_int_scanner(ctx):
 
 def replay(ctx, inp):
     env()
-    if inp.get('op') in ('format-scan', 'int-scan'):
+    if inp.get('op') in ('format-scan', 'int-scan', 'class-table'):
         return None
     return oracle(inp, run_impl(inp))
 
